@@ -823,6 +823,42 @@ func c08SPSide(c *core.Ctx) {
 			mustReject(t, "truncated-ciphervalue", mkResp(ea))
 		})
 	}
+	// octets appended after the intact ciphertext (a partial or a whole surplus block), and characters that are not base64 inserted into
+	// otherwise intact CipherValue text (of the data and of the wrapped key): malformed, whatever a lenient decoder could make of it
+	for _, n := range []int{1, 3, 8, 15, 16, 17, 32} {
+		n := n
+		c.Case(fmt.Sprintf("spfault/surplus-octets/%d", n), func(t *core.T) {
+			t.NonTrivial()
+			ea := base.Copy()
+			cv(ea).SetText(base64.StdEncoding.EncodeToString(append(append([]byte{}, full...), bytes.Repeat([]byte{0xa5}, n)...)))
+			mustReject(t, "surplus-octets-after-the-ciphertext", mkResp(ea))
+		})
+	}
+	for _, which := range []string{"data", "key"} {
+		for fi, foreign := range []string{"*!*", "(.)", "%%", "\u00e9", "-", "_", "\x00", "&#x2a;", "=", "====", "\u200b"} {
+			for _, at := range []string{"start", "middle", "before-padding"} {
+				which, foreign, at, fi := which, foreign, at, fi
+				c.Case(fmt.Sprintf("spfault/foreign-characters-in-base64/%s/%d/%s", which, fi, at), func(t *core.T) {
+					t.NonTrivial()
+					ea := base.Copy()
+					x := cv(ea)
+					if which == "key" {
+						x = ea.FindElement("./EncryptedData/KeyInfo/EncryptedKey/CipherData/CipherValue")
+					}
+					txt := x.Text()
+					pos := 0
+					switch at {
+					case "middle":
+						pos = len(txt) / 2
+					case "before-padding":
+						pos = len(strings.TrimRight(txt, "="))
+					}
+					x.SetText(txt[:pos] + foreign + txt[pos:])
+					mustReject(t, "foreign-characters-in-base64", mkResp(ea))
+				})
+			}
+		}
+	}
 	var positions []int
 	for i := 0; i < 48 && i < len(full); i++ {
 		positions = append(positions, i)
